@@ -213,14 +213,15 @@ def c08(req, obs):
         i = 0
         polls = {}
         attempt_failed_at = None
+        fatal_seen = None
         for j, e in enumerate(reqs):
             ans = e.get("answer", "ok")
             cls = e1.answer_class(ans)
             kind = e["kind"]
-            if attempt_failed_at is not None:
+            if attempt_failed_at is not None and e["method"] == "POST" and e["path"] == attempt_failed_at[3] and e.get("payload_b64") == attempt_failed_at[4]:
                 out.append(("retry-iff-recoverable", "kind=%s|%s" % (attempt_failed_at[0], attempt_failed_at[1]),
-                            "a non-recoverable error / non-problem error response fails the attempt without further requests",
-                            "after %s answered %s the daemon sent %s %s" % (attempt_failed_at[0], attempt_failed_at[2], e["method"], e["path"])))
+                            "a non-recoverable error / non-problem error response fails the attempt without re-sending that request",
+                            "after %s answered %s the daemon sent %s %s again" % (attempt_failed_at[0], attempt_failed_at[2], e["method"], e["path"])))
                 attempt_failed_at = None
             if e["method"] == "POST" and kind in ("authzPoll", "orderPoll1", "orderPoll2") and cls in ("ok", "badbody") and not e.get("rejected"):
                 polls[(kind, e["path"])] = polls.get((kind, e["path"]), 0) + 1
@@ -253,14 +254,19 @@ def c08(req, obs):
                             out.append(("<=10-transmissions", "kind=%s" % kind, "at most 10 transmissions of one request",
                                         "an 11th transmission of %s" % e["path"]))
                 elif not (t == "accountDoesNotExist" and kind in LEGIT_ADNE):
-                    attempt_failed_at = (kind, cls, ans)
+                    attempt_failed_at = (kind, cls, ans, e["path"], e.get("payload_b64"))
+                    fatal_seen = (kind, cls, ans)
             elif e["method"] == "POST" and ans.startswith("errbody:") and not e.get("rejected"):
-                attempt_failed_at = (kind, cls, ans)
+                attempt_failed_at = (kind, cls, ans, e["path"], e.get("payload_b64"))
+                fatal_seen = (kind, cls, ans)
             elif e["method"] == "GET" and (ans.startswith("err") and kind == "dir"):
-                attempt_failed_at = (kind, cls, ans)
+                fatal_seen = (kind, cls, ans)
         for (kind, path), n in polls.items():
             if n > 20:
                 out.append(("<=20-polls", "kind=%s" % kind, "polling stops after at most 20 polls", "%d polls of %s" % (n, path)))
+        if a.end is not None and a.end.get("success") is True and fatal_seen is not None:
+            out.append(("no-false-success", "kind=%s|%s" % (fatal_seen[0], fatal_seen[1]), "a non-recoverable error / non-problem error response fails the attempt",
+                        "%s answered %s but the attempt was reported successful" % (fatal_seen[0], fatal_seen[2])))
         if a.end is not None and a.end.get("success") is True:
             served = [e for e in reqs if e["kind"] == "cert" and e.get("status") == 200]
             if not served:
